@@ -81,7 +81,7 @@ class C06A(Machine):
             "virgin": [nshards > 1 and rng.random() < 0.25 for _ in range(nshards)],
         }
         steps = []
-        adds = ["add_tree", "add_tree", "append", "insert", "add_trees", "read"]
+        adds = ["add_tree", "add_tree", "append", "insert", "add_trees", "read"] + (["refused"] if node_ages else [])
         merges = ["update", "update", "extend", "iadd", "add"]
         queries = ["len", "freqs", "consensus", "mcct", "msct", "scores", "topologies", "bitmask_set_freqs", "restore",
                    "summarize", "bipartition_freqs"]
@@ -144,6 +144,26 @@ class C06A(Machine):
                 ta = shards[k]
                 ti = st["tree"] % len(pool)
                 how = st["how"]
+                if how == "refused":
+                    # fault: a tree the collection has to refuse (not ultrametric while node ages are collected); the
+                    # collection must be as if the tree had never been offered
+                    bad = gen.build_tree(dendropy, pool[ti]["spec"], ns, is_rooted=cfg["is_rooted"])
+                    lf = [nd for nd in bad.leaf_node_iter()][0]
+                    lf.edge.length = (lf.edge.length or 0) + 3.0
+                    before = (len(ta), ta.split_distribution.total_trees_counted, ta.split_distribution.sum_of_tree_weights, ta.is_rooted_trees)
+                    rec.fault("tree_refused_by_collection")
+                    try:
+                        ta.add_tree(bad)
+                    except Exception:
+                        after = (len(ta), ta.split_distribution.total_trees_counted, ta.split_distribution.sum_of_tree_weights, ta.is_rooted_trees)
+                        if after != before:
+                            rec.violation("REFUSED_BUT_CHANGED", {"op": "add_tree"},
+                                          "a refused tree changed the collection: (len, trees counted, weight sum, rooting) %s -> %s" % (before, after))
+                            raise StopRun()
+                        rec.ev("add", "refused", k)
+                        continue
+                    rec.violation("MISSING_ERROR", {"op": "add_tree_non_ultrametric"}, "a non-ultrametric tree was accepted while node ages are collected")
+                    raise StopRun()
                 try:
                     if how in ("add_tree", "append"):
                         getattr(ta, how)(self._tree(cfg, ns, pool[ti]))
@@ -272,6 +292,12 @@ class C06A(Machine):
             for k in set(fa) | set(fb):
                 if not _rel(fa.get(k, 0.0), fb.get(k, 0.0)):
                     return ("split_frequencies", "frequency of split %s: %s vs %s" % (k, fa.get(k), fb.get(k)))
+            # the tables hold the same splits (a split without values has no entry, however the collection was assembled)
+            for tab in ("split_edge_lengths", "split_node_ages"):
+                ka = set(k for k in getattr(sd, tab))
+                kb = set(k for k in getattr(rd, tab))
+                if ka != kb:
+                    return (tab + "_keys", "%s has entries for %d splits, the collection built tree by tree for %d" % (tab, len(ka), len(kb)))
             for k in b:
                 if sorted(sd.split_edge_lengths.get(k, []), key=repr) != sorted(rd.split_edge_lengths.get(k, []), key=repr):
                     return ("split_edge_lengths", "edge lengths of split %s: %s vs %s" % (
